@@ -31,9 +31,9 @@ var codecFamilies = []codecFamily{
 // codecFieldsOK: "<pkg>.<Type>.<family>.<field>.<dir>" -> reason. dir is "enc-only" (read by the encoder, not written
 // by the decoder) or "dec-only".
 var codecFieldsOK = map[string]string{
-	"pkg/core/block.Header.binary.hash.dec-only":                       "cached identity: DecodeBinary computes it from the decoded hashable fields (createHash), it is not wire data",
-	"pkg/network/payload.P2PNotaryRequest.binary.hash.dec-only":        "cached identity computed from the two decoded transactions (isValid), not wire data",
-	"pkg/crypto/keys.PublicKey.binary.Curve.dec-only":                  "the binary form is a compressed secp256r1 point: the decoder fixes the curve, the encoder has nothing to write for it",
+	"pkg/core/block.Header.binary.hash.dec-only":                      "cached identity: DecodeBinary computes it from the decoded hashable fields (createHash), it is not wire data",
+	"pkg/network/payload.P2PNotaryRequest.binary.hash.dec-only":       "cached identity computed from the two decoded transactions (isValid), not wire data",
+	"pkg/crypto/keys.PublicKey.binary.Curve.dec-only":                 "the binary form is a compressed secp256r1 point: the decoder fixes the curve, the encoder has nothing to write for it",
 	"pkg/smartcontract/manifest.Manifest.stackitem.Features.dec-only": "reserved member: ToStackItem emits a constant empty map, FromStackItem accepts only an empty map and sets the empty value",
 }
 
@@ -400,7 +400,7 @@ func ruleCodecFields(c *Ctx) {
 // (caches that are recomputed). A copy that starts from the whole value (`cp := *t`, `*cp = *t`) is complete by
 // construction.
 var copyCompleteOK = map[string]string{
-	"pkg/network/payload.P2PNotaryRequest.Copy.hash":      "cached identity, recomputed lazily by Hash() from the copied transactions",
+	"pkg/network/payload.P2PNotaryRequest.Copy.hash":     "cached identity, recomputed lazily by Hash() from the copied transactions",
 	"pkg/neorpc.NotificationFilter.Copy.parametersCache": "lazily rebuilt from Parameters by ParametersSI()",
 }
 
